@@ -155,6 +155,23 @@ def two_body(c, rec):
         for idx, tt in enumerate(times[1:]):
             _cmp("bulk", bulk[:, 0, idx], kepler.propagate(x0, tt - t0), rec, scale, f"propagateBulk output at {tt - t0!r}s of {t_end!r}s vs Kepler")
         _cmp("bulk_vs_propagate", bulk[:, 0, -1], full, rec, scale, "last propagateBulk output vs propagate over the whole span")
+        # the same with a scheduled impulse that falls exactly on one of the requested output times: every output column must
+        # other than that instant's own must equal a separate propagate() call to that time with the same event
+        if len(times) >= 4 and t_end >= 60.0:
+            from resonaate.dynamics.integration_events.scheduled_impulse import ScheduledECIImpulse
+            from resonaate.physics.time.stardate import ScenarioTime
+
+            j_imp = 1 + (len(times) - 2) // 2
+            mk = lambda: ScheduledECIImpulse(ScenarioTime(times[j_imp]), np.array([0.0, 0.01, 0.0]), 1)  # noqa: E731
+            bulk_ev = dyn.propagateBulk(times, x0.reshape(6, 1).copy(), scheduled_events=[mk()])
+            rec.label("bulk_with_impulse_on_output_time")
+            for idx, tt in enumerate(times[1:]):
+                if idx + 1 == j_imp:
+                    # at the impulse instant itself the state is discontinuous and the two entry points legitimately differ in
+                    # whether the returned state is the one just before or just after it (C03 says nothing about events)
+                    continue
+                single = dyn.propagate(t0, tt, x0.copy(), scheduled_events=[mk()])
+                _cmp("bulk_event", bulk_ev[:, 0, idx], single, rec, scale, f"propagateBulk output {idx + 1} of {len(times) - 1} (at {tt - t0!r}s) with an impulse scheduled on output {j_imp} vs a separate propagate() to that time")
 
 
 # ------------------------------------------------------------------------------------------------
